@@ -4,6 +4,7 @@ import RawPanelVerif.Driver.Text
 import RawPanelVerif.Driver.Tile
 import RawPanelVerif.Driver.Pix
 import RawPanelVerif.Driver.Net
+import RawPanelVerif.Driver.Gfx
 /-!
 Driver: reads records `cmd arg… | implementation-output` on stdin, prints one answer line per record:
 `EQ|NE  H1|H0:<clause>  [model output when NE]`.  State is per family and persists across lines.
@@ -12,6 +13,7 @@ open RawPanelVerif
 
 structure DriverSt where
   mono : Driver.Mono.St := {}
+  gfx : Driver.Gfx.St := {}
 
 def splitRecord (line : String) : String × List String × String :=
   let parts := line.splitOn " | "
@@ -30,6 +32,9 @@ def stepLine (st : DriverSt) (line : String) : DriverSt × String :=
   else if cmd.startsWith "tile." then (st, Driver.Tile.step cmd args impl)
   else if cmd.startsWith "pix." then (st, Driver.Pix.step cmd args impl)
   else if cmd.startsWith "net." then (st, Driver.Net.step cmd args impl)
+  else if cmd.startsWith "gfx." then
+    let (g, out) := Driver.Gfx.step st.gfx cmd args impl
+    ({ st with gfx := g }, out)
   else (st, "ERR unknown-family")
 
 partial def loop (h : IO.FS.Stream) (out : IO.FS.Stream) (st : DriverSt) : IO Unit := do
@@ -43,5 +48,7 @@ partial def loop (h : IO.FS.Stream) (out : IO.FS.Stream) (st : DriverSt) : IO Un
 def main : IO Unit := do
   let stdin ← IO.getStdin
   let stdout ← IO.getStdout
-  loop stdin stdout {}
+  -- `VERIF_C05_MODEL=pinned` selects the model of the pinned (defective) chunk reassembly for C05 replays
+  let pinned := (← IO.getEnv "VERIF_C05_MODEL") == some "pinned"
+  loop stdin stdout { gfx := { pinned := pinned } }
   stdout.flush
